@@ -8,6 +8,7 @@ if [ -n "$(git -C /repo status --porcelain)" ]; then echo "/repo not clean"; exi
 git merge --no-edit -X theirs prop-$g || { echo "MERGE CONFLICT in /verif"; exit 1; }
 commits=$(git -C /repo rev-list --no-merges --reverse main..fix-$g)
 for c in $commits; do
+  case " ${SKIP:-} " in *" ${c:0:7} "*) echo "skip (SKIP list) $c"; continue;; esac
   if git -C /repo log main --format=%s | grep -qxF "$(git -C /repo log -1 --format=%s $c)"; then echo "skip already picked $c"; continue; fi
   git -C /repo cherry-pick $c || { echo "CHERRY-PICK CONFLICT at $c in /repo"; exit 1; }
 done
